@@ -142,7 +142,11 @@ func (g *ProgGen) Type(d int) string {
 		for i := 0; i < n; i++ {
 			xs = append(xs, g.TypeAnn(d-1))
 		}
-		return Pick(g.R, []string{"Capability", "InclusiveRange", "Foo"}) + "<" + strings.Join(xs, ", ") + ">"
+		name := Pick(g.R, []string{"Capability", "InclusiveRange", "Foo"})
+		if name == "InclusiveRange" && len(xs) != 1 && !g.R.Chance(1, 8) {
+			xs = xs[:1] // InclusiveRange with a wrong number of type arguments crashes the checker (known finding): keep it rare
+		}
+		return name + "<" + strings.Join(xs, ", ") + ">"
 	case 11:
 		g.form("type:parenthesized")
 		return "(" + g.Type(d-1) + ")"
